@@ -48,8 +48,8 @@ def evaluate(s3, model=None):
     out = []
     reported = {}
     for s in sts:
-        r1 = by_ident.get((s.nt1.chain, s.nt1.number, s.nt1.icode))
-        r2 = by_ident.get((s.nt2.chain, s.nt2.number, s.nt2.icode))
+        r1 = by_ident.get(geomref.identity(s.nt1)[:3])
+        r2 = by_ident.get(geomref.identity(s.nt2)[:3])
         if r1 is None or r2 is None:
             out.append(D("C04:participant-not-in-structure", f"{s.nt1.full_name} - {s.nt2.full_name}"))
             continue
